@@ -197,6 +197,121 @@ fn run_plan(plan: Option<&Value>, seed: u64) -> RunOut {
     RunOut { events: evs.into_iter().map(|e| e.2).collect(), result: outcome_string(&call), done: call.done(), panicked: sim.nodes[c].panicked }
 }
 
+/// Generations of requests: the client knows exactly four peers. Lookup H0 is never answered (the in-flight table fills up to
+/// its capacity and is emptied when everything in it has expired), lookup H1 is answered LATE (900 ms: after its requests
+/// expired and the table was emptied again), lookup H2 - same peers, same distance order - starts 700 ms after H1, so H1's late
+/// answers arrive while H2's requests are outstanding. A transaction id is not used twice for one address, and the late
+/// answers change nothing.
+fn generations(seed: u64) -> RunOut {
+    let mut sim = Sim::new(seed ^ 0x6E, NetCfg { lat_min_ms: 10, lat_max_ms: 10, ..Default::default() });
+    sim.record = true;
+    let ids: Vec<[u8; 20]> = (0..4).map(|i| crypto::sha1(&[i as u8, 43])).collect();
+    let all: Vec<([u8; 20], SocketAddrV4)> = ids.iter().enumerate().map(|(i, id)| (*id, SocketAddrV4::new(fake_ip(i), 6881))).collect();
+    let nodes = krpc::compact_nodes(&all);
+    let mode = Rc::new(std::cell::Cell::new(0u8));
+    let m2 = mode.clone();
+    let policy: Policy = Box::new(move |me, m, w| match m2.get() {
+        1 => Reply::Silent,
+        // 10 + j: the first j peers answer, the burst leaves 4 - j unanswered requests behind
+        x if x >= 10 => {
+            if (me.idx as u8) < x - 10 {
+                Reply::Default
+            } else {
+                Reply::Silent
+            }
+        }
+        2 => {
+            let mut r = B::dict();
+            r.set("nodes", B::bytes(&nodes));
+            r.set("token", B::bytes(me.token()));
+            r.set("values", B::List(vec![B::bytes(&[10, 66, 66, 66, 0x1a, 0x0a][..])]));
+            Reply::One(krpc::response(&m.tid, &me.id, r, Some(&w.from)), 900)
+        }
+        _ => Reply::Default,
+    });
+    let net = FakeNet::install(&mut sim, &ids, policy);
+    let c = sim.add_node(NodeOpts::client(private_ip(5), &net.bootstrap()));
+    sim.run_for(2500);
+    sim.watch = Some(c);
+    let caddr = sim.nodes[c].addr;
+    let log0 = sim.log.len();
+    let h0 = crypto::sha1(b"generation 0");
+    let h1 = crypto::sha1(b"generation 1");
+    let mut h2 = h1;
+    h2[19] ^= 1;
+    mode.set(1);
+    let mut c0 = sim.call_get(c, GetKind::Peers, h0, "h0");
+    sim.poke(c);
+    sim.run_for(1200);
+    mode.set(2);
+    let mut c1 = sim.call_get(c, GetKind::Peers, h1, "h1");
+    sim.poke(c);
+    sim.run_for(700);
+    mode.set(1);
+    let mut c2 = sim.call_get(c, GetKind::Peers, h2, "h2");
+    sim.poke(c);
+    sim.run_for(2500);
+    // more unanswered generations: the table passes through every capacity (4, 8, 16, 32) full of expired requests
+    let mut more = vec![];
+    // fill the in-flight table up to EXACTLY its capacity with unanswered requests (bursts of four, the last one as small as
+    // needed), then let everything in it expire at once: the table is emptied in one go
+    let mut k = 0u8;
+    loop {
+        let (len, cap) = match sim.snapshot(c) {
+            Some(s) => (s.inflight.entries.len(), s.inflight.capacity.max(4)),
+            None => break,
+        };
+        if len >= cap || k > 40 {
+            break;
+        }
+        let room = cap - len;
+        mode.set(if room >= 4 { 1 } else { 10 + (4 - room) as u8 });
+        more.push(sim.call_get(c, GetKind::Peers, crypto::sha1(&[b'f', k]), "fill"));
+        sim.poke(c);
+        sim.run_for(60);
+        k += 1;
+    }
+    sim.run_for(1500);
+    // ... and go on: unanswered generations 700 ms apart
+    for k in 0..10u8 {
+        mode.set(1);
+        more.push(sim.call_get(c, GetKind::Peers, crypto::sha1(&[b'g', k]), "hk"));
+        sim.poke(c);
+        sim.run_for(700);
+    }
+    sim.run_for(1500);
+    let now = sim.now_ns();
+    c0.poll(now);
+    c1.poll(now);
+    c2.poll(now);
+    let mut evs: Vec<(u64, u64, Value)> = vec![];
+    for r in &sim.log[log0..] {
+        if r.from == caddr {
+            if let Some(m) = &r.msg {
+                if m.is_request() {
+                    evs.push((r.sent_ns, 1, json!({"e":"send","tid":m.tid_u32().unwrap_or(0),"to":r.to.to_string(),"t":(r.sent_ns - sim.start_ns) / MS})));
+                }
+            }
+        }
+    }
+    for w in &sim.watch_log {
+        if let Some(m) = crate::krpc::Msg::parse(&w.wire.bytes) {
+            if m.is_request() {
+                continue;
+            }
+            let ci = inflight_digest(&w.pre) != inflight_digest(&w.post);
+            let cc = core_digest(&w.pre) != core_digest(&w.post);
+            evs.push((w.t_ns, 0, json!({"e":"recv","tid":m.tid_u32().map(|x| x as i64).unwrap_or(-1),"from":w.wire.from.to_string(),"y":m.y,
+                "t":(w.t_ns - sim.start_ns) / MS,"changed_inflight":ci,"changed_core":cc,"timeout_ms":w.pre.inflight.timeout_ns / MS,
+                "entries_before":w.pre.inflight.entries.len(),"entries_after":w.post.inflight.entries.len()})));
+        }
+    }
+    evs.sort_by_key(|e| (e.0, e.1));
+    // what the last lookup yielded: nobody answered IT
+    let result = format!("h2:{}", c2.items.len());
+    RunOut { events: evs.into_iter().map(|e| e.2).collect(), result, done: c0.done() && c1.done() && c2.done(), panicked: sim.nodes[c].panicked }
+}
+
 pub fn run(args: &Args) -> i32 {
     let seed = args.u64("seed", 1);
     let mut out = Out::create(&args.str("out", "/verif/work/C09/trace.ndjson"));
@@ -230,6 +345,16 @@ pub fn run(args: &Args) -> i32 {
         if samples.len() < 3 && i % 50 == 7 {
             samples.push(json!({"plan": p, "result": r.result, "events": r.events.len()}));
         }
+        b += 1;
+    }
+    for g in 0..2u64 {
+        let r = generations(seed.wrapping_add(g));
+        out.line(&json!({"e":"reset","b":b,"plan":{"scenario":"generations","k":g}}));
+        for e in &r.events {
+            out.line(e);
+        }
+        events += r.events.len() as u64;
+        out.line(&json!({"e":"end","b":b,"done":r.done,"panicked":r.panicked,"same_result":r.result == "h2:0","expect_same":true,"result":r.result,"baseline":"h2:0"}));
         b += 1;
     }
     out.finish();
